@@ -34,19 +34,27 @@ type c04Params struct {
 	// stops, the writer appends the second chunk (more lines than the queue holds, so the surplus is dropped), the
 	// consumer resumes a second later and the last chunk follows.  Canonical schedule only (long executions).
 	Hist int
+	// Second: a second followed file whose reader delivers into the SAME queue (all files of a session share one);
+	// the writer appends Second[i] to it right after Chunks[i]
+	Second []string
 }
 
 func (p c04Params) String() string {
 	if p.Hist > 0 {
 		return fmt.Sprintf("history of %d delivered lines, then %d lines into a stopped queue of capacity %d, then 2 lines", p.Hist, strings.Count(p.Chunks[1], "\n"), p.Cap)
 	}
-	return fmt.Sprintf("initial=%q chunks=%q regex=%q cap=%d late=%v pause=%v middrain=%d", p.Initial, p.Chunks, p.Regex, p.Cap, p.Late, p.Pause, p.MidDrain)
+	s := fmt.Sprintf("initial=%q chunks=%q regex=%q cap=%d late=%v pause=%v middrain=%d", p.Initial, p.Chunks, p.Regex, p.Cap, p.Late, p.Pause, p.MidDrain)
+	if len(p.Second) > 0 {
+		s += fmt.Sprintf(" second-file-chunks=%q", p.Second)
+	}
+	return s
 }
 
 type c04Line struct {
-	Text  string
-	Perc  int
-	Count uint64 // the running number the line is labelled with
+	Text   string
+	Perc   int
+	Count  uint64 // the running number the line is labelled with
+	Source string
 }
 
 func c04Scenario(p c04Params, idx int) *explore.Scenario {
@@ -79,9 +87,20 @@ func c04Scenario(p c04Params, idx int) *explore.Scenario {
 				fs.NewTailFile(path, "f", msgs).Start(ctx, lcontext.LContext{}, lines, re)
 				readerDone.Close("readerDone")
 			})
+			path2 := path + ".second"
+			reader2Done := vrt.Make[struct{}]("reader2Done", 0)
+			if len(p.Second) > 0 {
+				if err := os.WriteFile(path2, nil, 0o644); err != nil {
+					panic(err)
+				}
+				vrt.Go("tail-reader-2", func() {
+					fs.NewTailFile(path2, "g", msgs).Start(ctx, lcontext.LContext{}, lines, re)
+					reader2Done.Close("reader2Done")
+				})
+			}
 			var got []c04Line
 			recv := func(l *line.Line) {
-				got = append(got, c04Line{l.Content.String(), l.TransmittedPerc, l.Count})
+				got = append(got, c04Line{l.Content.String(), l.TransmittedPerc, l.Count, l.SourceID})
 			}
 			consumerStop := vrt.Make[struct{}]("consumerStop", 0)
 			consumerDone := vrt.Make[struct{}]("consumerDone", 0)
@@ -112,6 +131,13 @@ func c04Scenario(p c04Params, idx int) *explore.Scenario {
 				if err != nil {
 					panic(err)
 				}
+				var f2 *vos.File
+				if len(p.Second) > 0 {
+					if f2, err = vos.OpenFile(path2, vos.O_WRONLY|vos.O_APPEND, 0o644); err != nil {
+						panic(err)
+					}
+					defer f2.Close()
+				}
 				if p.Hist > 0 {
 					// the history must be appended after the follow began
 					for {
@@ -139,6 +165,9 @@ func c04Scenario(p c04Params, idx int) *explore.Scenario {
 						}
 					} else {
 						f.Write([]byte(c))
+					}
+					if f2 != nil && i < len(p.Second) {
+						f2.Write([]byte(p.Second[i]))
 					}
 					if p.Hist > 0 && i == 0 {
 						histReached.Recv("hist") // every line of the history has been delivered
@@ -179,12 +208,44 @@ func c04Scenario(p c04Params, idx int) *explore.Scenario {
 			}
 			cancel()
 			readerDone.Recv("wait-reader")
+			if len(p.Second) > 0 {
+				reader2Done.Recv("wait-reader-2")
+			}
 			x, began := vos.S.SeekEnd[path]
 			if !began {
 				viol = "the follow never positioned itself at the end of the file"
 				return
 			}
-			out, viol = c04Oracle(p, got, x)
+			if len(p.Second) == 0 {
+				out, viol = c04Oracle(p, got, x, 0)
+				return
+			}
+			// two files on one queue: each file's lines are judged on their own; the other file's lines occupy the queue too
+			x2, began2 := vos.S.SeekEnd[path2]
+			if !began2 {
+				viol = "the follow of the second file never positioned itself at the end of the file"
+				return
+			}
+			var g1, g2 []c04Line
+			for _, l := range got {
+				if l.Source == "g" {
+					g2 = append(g2, l)
+				} else {
+					g1 = append(g1, l)
+				}
+			}
+			p2 := p
+			p2.Initial, p2.Chunks = "", p.Second
+			n1, n2 := strings.Count(strings.Join(p.Chunks, ""), "\n"), strings.Count(strings.Join(p.Second, ""), "\n")
+			out, viol = c04Oracle(p, g1, x, n2)
+			if viol == "" {
+				var o2 string
+				o2, viol = c04Oracle(p2, g2, x2, n1)
+				if viol != "" {
+					viol = "second file: " + viol
+				}
+				out += " | " + o2
+			}
 		})
 		if res.Fail != nil {
 			viol = res.Fail.Error()
@@ -205,7 +266,7 @@ func c04Scenario(p c04Params, idx int) *explore.Scenario {
 	return sc
 }
 
-func c04Oracle(p c04Params, got []c04Line, x int64) (string, string) {
+func c04Oracle(p c04Params, got []c04Line, x int64, othersOffered int) (string, string) {
 	full := p.Initial + strings.Join(p.Chunks, "")
 	if int(x) > len(full) {
 		return "bad", fmt.Sprintf("follow began at offset %d beyond the final size %d", x, len(full))
@@ -248,7 +309,7 @@ func c04Oracle(p c04Params, got []c04Line, x int64) (string, string) {
 		}
 	}
 	// delivered lines (minus an optional leading fragment) must be a subsequence of wantSel
-	offered := len(wantSel)
+	offered := len(wantSel) + othersOffered
 	if fragment != "" {
 		offered++ // the remainder of a straddling line also occupies the queue
 	}
@@ -338,6 +399,10 @@ func c04ParamSets(tier string) (ps []c04Params, d int) {
 			}
 		}
 	}
+	// two followed files deliver into one queue of capacity 1 (the consumer drains once in the middle and at the end)
+	ps = append(ps, c04Params{Initial: "old\n", Chunks: []string{"a\n", "bb\n"}, Second: []string{"x\n", "y\n"}, Cap: 1, Late: true, MidDrain: 1},
+		c04Params{Initial: "old\n", Chunks: []string{"a\nbb\n", "c\n"}, Second: []string{"x\n", "y\nz\n"}, Cap: 2, Late: true, MidDrain: 1},
+		c04Params{Initial: "", Chunks: []string{"a\n", "bb\n"}, Second: []string{"x\n", "y\n"}, Cap: 100})
 	// long histories: a single drop after hundreds of delivered lines must still show in the percentage
 	for _, h := range []int{30, 120, 250, 450} {
 		for _, cp := range []int{4, 100} {
@@ -362,13 +427,14 @@ func init() {
 		Level: "model_checking",
 		Rule: "stateless exploration of all schedules within a deviation bound of the real TailFile reader following a real file while a writer goroutine appends and a consumer receives: appended text of 1-3 lines over {a, bb, é} " +
 			"in every composition into <=2 (quick) / <=3 (thorough) write() calls (splits inside a line and inside the 2-byte character), initial content empty or 'old\\n', filter regex none/'a', delivery queue capacity 100 with an eager consumer or 1 with a consumer that only " +
-			"receives at the end, optional 150 ms writer pause; plus (canonical schedule) histories of 30..450 delivered lines followed by 1 or 3 lines dropped at a stopped consumer (capacity 4 and 100); file opens, reads and writes are scheduling points; oracle against the offset at which the follow began (observed at its Seek): delivered lines are exactly / a subsequence of the complete " +
+			"receives at the end, optional 150 ms writer pause; two followed files delivering into one shared queue (capacity 1, 2, 100); plus (canonical schedule) histories of 30..450 delivered lines followed by 1 or 3 lines dropped at a stopped consumer (capacity 4 and 100); file opens, reads and writes are scheduling points; oracle against the offset at which the follow began (observed at its Seek): delivered lines are exactly / a subsequence of the complete " +
 			"lines appended after that offset, unmodified and in order, nothing older, a gap only with a full queue and then the next delivered line has TransmittedPerc < 100",
 		Assumptions: []string{
 			"no truncation or rotation of the followed file (outside the statement)",
 			"virtual time advances only when no goroutine is runnable; the follower's 100 ms poll and 3 s truncation check run in virtual time",
 			"a write(2) is atomic with respect to a read(2) of the same file",
 		},
+		QuickBudget: 240 * time.Second,
 		Scenarios: func(tier string) (out []*explore.Scenario) {
 			ps, _ := c04ParamSets(tier)
 			for i, p := range ps {
